@@ -57,6 +57,7 @@ THEOREMS = {
         "Shroud.LuaDispatch.distinguishable_is_reached_method",
         "Shroud.LuaDispatch.argument_indices",
         "Shroud.LuaDispatch.idxFrom_get",
+        "Shroud.LuaDispatch.argument_read_from",
         "Shroud.LuaDispatch.zero_arg_calls_both_run",
         "Shroud.LuaDispatch.old_method_dispatch_wrong",
         "Shroud.LuaDispatch.old_method_single_reads_object",
@@ -127,6 +128,8 @@ def parse_emit(blk, group):
     """One do_function body -> dict(ov, self, pops, nres, pushes, popfn_ok, ncalls)."""
     names = {}
     for m in re.finditer(r"(\w+) = (?:static_cast<[^>]*>\()?\s*(lua_to\w+)\( ?L, (\d+)\)", blk):
+        names[m.group(1)] = (m.group(2), int(m.group(3)))
+    for m in re.finditer(r"const std::string (\w+)\( ?(lua_to\w+)\( ?L, (\d+)\)\)", blk):
         names[m.group(1)] = (m.group(2), int(m.group(3)))
     sm = re.search(r'luaL_checkudata\( ?L, (\d+), "([^"]*)"\)', blk)
     selfidx = int(sm.group(1)) if sm else None
@@ -903,6 +906,17 @@ def replay(path):
         rp = f["replay"]
         print(f["key"], "--", f["what"])
         if "cmds" not in rp:
+            if "yaml" in rp:
+                d1 = common.scratch()
+                try:
+                    import yaml as _y
+                    name = _y.safe_load(rp["yaml"])["library"]
+                    y = shroudrun.write_yaml(d1, name + ".yaml", rp["yaml"])
+                    cfg, exc, out = shroudrun.run_inproc([y], d1)
+                    print("  shroud on the library ->", repr(exc) if exc else "no exception")
+                    r = 1 if exc else r
+                finally:
+                    common.rmtree(d1)
             continue
         d0 = common.scratch()
         try:
